@@ -68,7 +68,7 @@ def install(ctx, repo, probes):
                 tag, exc, snap["key"], d_key), p=snap["key"], d=d_key)
             return
         prob = None
-        if type(q) is not TP or q._truncated:
+        if not isinstance(q, TP) or q._truncated:
             prob = "result is not a full TimePoint"
         elif R.tp_rep(q) != snap["rep"]:
             prob = "representation changed"
